@@ -105,7 +105,7 @@ Proof.
     destruct (m_body m1); auto. destruct ents as [es |]; auto. destruct Mk as [j [l1 [X1 [Y1 Z1]]]]. split; auto.
     eapply slice_wf; eauto. eapply (g_rec_wf _ _ _ _ GI); eauto. }
   pose proof (run_event_crash_lm s ev k crashed st s' (g_base _ _ _ _ GI i s Gs) Hev4 Hrun) as NI.
-  pose proof (v_msgs _ _ _ _ _ _ _ NI) as N_msgs. rewrite Forall_forall in N_msgs.
+  pose proof (v_msgs _ _ _ _ _ _ _ _ _ NI) as N_msgs. rewrite Forall_forall in N_msgs.
   pose proof (N_msgs m0 H0) as Mg. unfold mgood in Mg. rewrite <- Eb, Hbody in Mg.
   destruct (N.eq_dec idx 0) as [Z0 | Hnz].
   { subst idx. simpl. split; [lia | reflexivity]. }
